@@ -6,17 +6,21 @@ slice enumerates it exhaustively on the real interpreter."""
 from symx.api import harness
 
 SLICES_Q = [(6, 0, 255), (6, 999744, 999999), (3, 0, 999), (1, 0, 9)]
-SLICES_T = [(6, lo, min(lo + 15624, 999999)) for lo in range(0, 1000000, 15625)] + [(k, 0, 10 ** k - 1) for k in (1, 2, 3, 4)] + \
-           [(5, lo, lo + 24999) for lo in range(0, 100000, 25000)]
+SLICES_T = [(6, lo, lo + 4095) for lo in range(0, 1000000, 15625)] + [(k, 0, 10 ** k - 1) for k in (1, 2, 3)] + \
+           [(4, lo, lo + 4095) for lo in (0, 5904)] + [(5, lo, lo + 4095) for lo in range(0, 100000, 25000)]
 
 
 @harness('C08', tier_params={'quick': SLICES_Q, 'thorough': SLICES_T}, label=lambda p: 'digits=%d n in [%d, %d]' % p,
          functions=['spyne.protocol._inbase._parse_datetime_iso_match (fraction kernel)',
                     'spyne.protocol._inbase.InProtocolBase.time_from_unicode (fraction kernel)'],
-         bounds={'fraction': 'quick: 4 small slices; thorough: all 10^6 six-digit fractions in 64 slices and all shorter forms'})
+         bounds={'fraction': 'bit-precise (QF_BVFP): quick 4 small slices; thorough 64 slices of 4096 six-digit fractions spread '
+                             'evenly over the range, all 1-3 digit forms, slices of the 4-5 digit forms. The native replay of each '
+                             'job enumerates its whole stride (together: every six-digit fraction) on the real interpreter'})
 def fraction_kernel_bitprecise(sx, p):
     k, lo, hi = p
     if not sx.symbolic:
+        # the native replay enumerates the whole stride around the slice exhaustively (it costs milliseconds)
+        lo, hi = (lo // 15625) * 15625, min(10 ** k - 1, (lo // 15625) * 15625 + 15624)
         return all(min(999999, int(round(float('.%0*d' % (k, n)) * 1e6))) == n * 10 ** (6 - k) for n in range(lo, hi + 1))
     import z3
     from symx.core import E, Unsupported
